@@ -182,6 +182,7 @@ def run(ctx):
     plug = PLUGINS[ctx.prop]
     replay_known(ctx)
     groups = plug["streams"](ctx)
+    groups += program_groups(ctx, groups)
     allcases = [c for g in groups for c in g.cases]
     t = time.time()
     impl, model = rxlib.run_full(allcases, timeout_ms=ctx.scale(3000, 5000))
@@ -197,10 +198,15 @@ def run(ctx):
         for j, (a, b) in enumerate(zip(g.impl, g.model)):
             if a != b and g.cases[j].api != "history":
                 mism.append((g, j))
+        if g.meta.get("l2"):
+            ctx.hist["programs_compared"] += 1
+            continue
         res = plug["oracle"](ctx, g)
         for desc in res:
             fails.append((g, desc))
     ctx.mismatches = len(mism)
+    if ctx.prop in HYP_PROPS:
+        check_hypotheses(ctx, allcases)
     rc = 0
     # 1. oracle failures on the implementation
     reported = 0
@@ -248,6 +254,70 @@ def run(ctx):
             "what": "a proof obligation of this property no longer checks; no failing input was found",
             "no_longer_checks": ctx.ob_problems}, nofail=True)
     return rc
+
+
+def program_groups(ctx, groups):
+    """L2: for (a sample of) the distinct patterns of this run, the compiled program itself is compared —
+    the implementation's Debug dump against the program the model compiles (operation tree, prefix, initial
+    class, preconditions, minimum length, flags, nullability)"""
+    seen = {}
+    for g in groups:
+        for c in g.cases:
+            if c.api in ("history", "dump"):
+                continue
+            k = c.key()
+            if k not in seen:
+                seen[k] = g
+    keys = list(seen.items())
+    ctx.rnd.shuffle(keys)
+    out = []
+    for k, g in keys[:ctx.scale(1200, 12000)]:
+        out.append(Group([Case(k[2], k[3], "dump", dialect=k[0], mode=k[1])], {"features": g.meta.get("features", set()), "l2": True,
+                                                                                    "input": "", "chars": [""], "expect": [None]}))
+    return out
+
+
+HYP_PROPS = {"C01", "C02", "C05", "C06", "C08", "C16"}
+
+
+def check_hypotheses(ctx, cases):
+    """the engine theorems assume decidable predicates on compiled programs (wfOp, capsPos, FactsOK …) which the
+    compiler is believed to establish: evaluate them (in Lean, by the driver) on the programs the
+    IMPLEMENTATION compiled for this run's patterns"""
+    keys = {}
+    for c in cases:
+        if c.api == "history":
+            continue
+        k = c.key()
+        if k not in keys or len(c.input) > len(keys[k].input):
+            keys[k] = c
+    keys = dict(list(keys.items())[:4000])
+    progs = rxlib.dump_programs(keys.keys())
+    lines, order = [], []
+    for k, c in keys.items():
+        p = progs.get(k, "")
+        if p.startswith("(prog"):
+            w = rxlib.Case(c.pattern, c.flags, "wf", c.input, dialect=c.dialect, mode=c.mode)
+            lines.append(w.dline(len(order), p, "eng"))
+            order.append(c)
+    ans = rxlib.driver(lines)
+    must = ("wf", "caps", "facts", "br", "prewf")
+    for i, c in enumerate(order):
+        a = ans.get(str(i), "")
+        ctx.hist["programs_checked"] += 1
+        if not a.startswith("WF:"):
+            continue
+        d = dict(x.split("=") for x in a[3:].split(","))
+        for k2 in ("small", "pre"):
+            if d.get(k2) == "0":
+                ctx.hist["hypothesis_not_met:" + k2] += 1
+        bad = [k2 for k2 in must if d.get(k2) == "0"]
+        if bad and re.search(r"\d{10,}", c.pattern):
+            # saturated lengths (quantifier bounds near 2^64) are outside wfOp by design: counted, not an alarm
+            ctx.hist["hypothesis_not_met:saturated_bounds"] += 1
+            continue
+        if bad:
+            ctx.ob_problems.append(f"compiled program of {c.pattern!r} (flags {c.flags!r}, {c.mode}) does not satisfy the theorem hypotheses {bad}: the theorems of {ctx.prop} do not apply to it")
 
 
 def default_search(ctx, g, j):
